@@ -44,6 +44,18 @@ var ghostIOComps = []ghostComp{
 func (x *Exec) gcomp(st *State, name string) *Term {
 	for _, g := range ghostIOComps {
 		if g.name == name {
+			if x.mode == "math" && !x.specMode && (name == "ghost.fdata" || name == "ghost.wdata") && !x.globalInit["range:"+name] {
+				// bytes of ghost files and streams are bytes
+				if _, exists := st.heap[name]; !exists {
+					x.globalInit["range:"+name] = true
+					h := x.heapGet(st, name, g.sort(x))
+					c := x.c
+					r := c.Bound("r", SInt)
+					i := c.Bound("i", SInt)
+					e := c.Select(c.Select(h, r), i)
+					x.assumeGlobal(st, c.Forall([]*Term{r, i}, c.And(c.Le(c.Int(0), e), c.Le(e, c.Int(255))), []*Term{e}))
+				}
+			}
 			return x.heapGet(st, name, g.sort(x))
 		}
 	}
@@ -280,6 +292,15 @@ func init() {
 	write := func(x *Exec, st *State, e *ast.CallExpr, recv *Val) []Val {
 		c := x.c
 		b := x.expr(st, e.Args[0])
+		if isString(x.typeOf(e.Args[0])) {
+			// WriteString: the bytes of the string
+			arr := x.allocRef(st, "strbytes")
+			comp := memComp(u8)
+			m := x.heapGet(st, comp, x.memSort(u8))
+			x.heapSet(st, comp, c.Store(m, arr, c.App("str_bytes", b.T)))
+			n := c.App("str_len", b.T)
+			b = Val{Typ: types.NewSlice(u8), Arr: arr, Off: x.idxLit(0), Len: n, Cap: n}
+		}
 		x.nilCheck(st, recv.T, "Write on nil writer")
 		fail := x.ioFail(st, "write")
 		wl := x.gsel(st, "ghost.wlen", recv.T)
@@ -308,7 +329,7 @@ func init() {
 		ms.addAt("ghost.wlen", SArr(SInt, x.idxSort()), recvExpr(e), x.info)
 		ms.add("ghost.iofail", SBool)
 	}
-	for _, k := range []string{"io.Writer.Write", "bufio.Writer.Write", "bytes.Buffer.Write"} {
+	for _, k := range []string{"io.Writer.Write", "bufio.Writer.Write", "bytes.Buffer.Write", "bufio.Writer.WriteString", "bytes.Buffer.WriteString"} {
 		libModels[k] = write
 		libMods[k] = writeMod
 	}
@@ -333,7 +354,15 @@ func registerGhostIO(e *Engine) {
 		return x.gsel(st, "ghost.fid", f.T)
 	}
 	g["fileSize"] = func(x *Exec, st *State, e *ast.CallExpr) []Val {
-		return []Val{{Typ: intT, T: x.gsel(st, "ghost.fsize", fileID(x, st, e.Args[0]))}}
+		sz := x.gsel(st, "ghost.fsize", fileID(x, st, e.Args[0]))
+		if x.inQuant == 0 && !x.specMode {
+			x.assumeGlobal(st, x.c.And(x.idxLe(x.idxLit(0), sz), x.idxLe(sz, x.idxBig())))
+		}
+		return []Val{{Typ: intT, T: sz}}
+	}
+	g["pathFileSize"] = func(x *Exec, st *State, e *ast.CallExpr) []Val { // size of the file at a path
+		p := x.expr(st, e.Args[0])
+		return []Val{{Typ: intT, T: x.gsel(st, "ghost.fsize", x.pathID(p.T))}}
 	}
 	g["fileByte"] = func(x *Exec, st *State, e *ast.CallExpr) []Val {
 		i := x.toIdx(st, x.expr(st, e.Args[1]))
